@@ -196,6 +196,23 @@ int main(int argc, char** argv) {
             std::printf("F17: DEFECT after update(h with h[0]=+inf) KKT_FULL keeps the old row of G in its KKT matrix: status %d after %ld iterations, fresh solver status %d after %ld\n", (int) sa, ia, (int) sf, i_f);
         else std::printf("F17: ok (%ld vs %ld iterations)\n", ia, i_f);
     }
+    if (which == "F18" || which == "all") {
+        // check_duality_gap = false: SOLVED on an infeasible LP (x0 fixed to 0 by its bounds, row 0 demands x0 >= 1)
+        M P0 = M::Zero(2, 2); V c0(2); c0 << -1, 0;
+        M G0(2, 2); G0 << -1, 0, 0, 1;
+        V h0(2); h0 << -1, 1;
+        V lb0(2); lb0 << 0, -INF;
+        V ub0(2); ub0 << 0, INF;
+        DenseSolver<double> a;
+        a.settings().check_duality_gap = false;
+        a.setup(P0, c0, nullopt, nullopt, G0, h0, lb0, ub0);
+        Status s = a.solve();
+        double viol = -a.result().x(0) + 1;     // row 0: -x0 <= -1
+        if (s == PIQP_SOLVED && viol > 0.1)
+            std::printf("F18: DEFECT check_duality_gap=false: PIQP_SOLVED on an infeasible LP, row 0 violated by %.3f, primal_inf %.3e primal_rel_inf %.3e\n",
+                        viol, a.result().info.primal_inf, a.result().info.primal_rel_inf);
+        else std::printf("F18: ok (status %d)\n", (int) s);
+    }
     if (which == "F9") {
         // sparse: update(A') with the same nnz but a different pattern is accepted; run under ASan
         SparseSolver<double, int> a;
